@@ -5,6 +5,7 @@ import (
 	"go/token"
 	"go/types"
 	"math/big"
+	"runtime"
 	"sort"
 	"strings"
 	"time"
@@ -196,6 +197,10 @@ func (ex *Exec) runPath(prefix []int) {
 			if r := recover(); r != nil {
 				if pe, ok := r.(pathEnd); ok {
 					end = pe
+					return
+				}
+				if re, ok := r.(runtime.Error); ok && strings.Contains(re.Error(), "symex.opaqueV") {
+					end = pathEnd{kind: "unsupported", msg: "opaque (unmodelled) value used: " + re.Error() + ex.stackOf(ex.curFrame)}
 					return
 				}
 				panic(r)
